@@ -1,5 +1,5 @@
-import QmiModel.Model.PipelineX
-namespace QmiModel.PipelineX
+import QmiModel.Model.Pipeline
+namespace QmiModel.Pipeline
 
 /-- every place holds only requests routed through it -/
 structure WF (T : Topo) (s : State) : Prop where
@@ -26,4 +26,24 @@ theorem wf_step {T : Topo} {s s' : State} {a : Act} (h : step T s a = some s') (
          refine ⟨?_, ?_, ?_, ?_, ?_, ?_, ?_, ?_, ?_, ?_⟩ <;>
            (simp only [upd, upd2]; grind))
 
-end QmiModel.PipelineX
+/-- the removal flags are monotone and ordered -/
+structure FInv (s : State) : Prop where
+  rej_left  : ∀ o, s.rejected o ≠ [] → s.left o = true
+  left_shut : ∀ o, s.left o = true → s.shutdown o = true
+  shut_stop : ∀ o, s.shutdown o = true → s.stopped o = true
+  ref_flag  : ∀ o, s.refused o ≠ [] → s.unreg o = true ∨ s.stopped o = true
+  left_idle : ∀ o, s.left o = true → s.cur o = none
+
+theorem finv_init : FInv init := by
+  constructor <;> simp [init]
+
+theorem finv_step {T : Topo} {s s' : State} {a : Act} (h : step T s a = some s') (f : FInv s) : FInv s' := by
+  obtain ⟨f1, f2, f3, f4, f5⟩ := f
+  cases a <;> simp only [step] at h <;> (repeat' split at h) <;>
+    first
+      | (simp at h; done)
+      | (simp only [Option.some.injEq] at h; subst h
+         refine ⟨?_, ?_, ?_, ?_, ?_⟩ <;>
+           (simp only [upd, upd2]; grind))
+
+end QmiModel.Pipeline
